@@ -640,6 +640,17 @@ func init() {
 			})
 			return nil
 		},
+		"slices.SortFunc":       sortByCmp,
+		"slices.SortStableFunc": sortByCmp,
+		"slices.Reverse": func(fr *frame, args []value) value {
+			x, _ := args[0].([]value)
+			for i, j := 0, len(x)-1; i < j; i, j = i+1, j-1 {
+				x[i], x[j] = x[j], x[i]
+			}
+			return nil
+		},
+		"sort.Slice":       sortByLess,
+		"sort.SliceStable": sortByLess,
 		"slices.Contains": func(fr *frame, args []value) value {
 			x, _ := args[0].([]value)
 			for _, e := range x {
@@ -672,6 +683,22 @@ func init() {
 			}
 			it.mutexLock(fr, p)
 			return true
+		},
+		"(*sync.RWMutex).Lock": func(fr *frame, args []value) value {
+			fr.i.mutexLock(fr, ptrArg(fr, args[0], "RWMutex.Lock"))
+			return nil
+		},
+		"(*sync.RWMutex).Unlock": func(fr *frame, args []value) value {
+			fr.i.mutexUnlock(fr, ptrArg(fr, args[0], "RWMutex.Unlock"))
+			return nil
+		},
+		"(*sync.RWMutex).RLock": func(fr *frame, args []value) value {
+			fr.i.rLock(fr, ptrArg(fr, args[0], "RWMutex.RLock"))
+			return nil
+		},
+		"(*sync.RWMutex).RUnlock": func(fr *frame, args []value) value {
+			fr.i.rUnlock(fr, ptrArg(fr, args[0], "RWMutex.RUnlock"))
+			return nil
 		},
 		"(*sync.Once).Do": func(fr *frame, args []value) value {
 			// The Once value's address serves as its lock; the done flag
@@ -767,6 +794,78 @@ func init() {
 		},
 	})
 
+	// ---- sync/atomic integer types (concrete values; every operation is a scheduling point)
+	for _, ty := range []struct {
+		name string
+		zero value
+		wrap func(int64) value
+	}{
+		{"Int64", int64(0), func(x int64) value { return x }},
+		{"Int32", int32(0), func(x int64) value { return int32(x) }},
+		{"Uint64", uint64(0), func(x int64) value { return uint64(x) }},
+		{"Uint32", uint32(0), func(x int64) value { return uint32(x) }},
+	} {
+		ty := ty
+		cur := func(fr *frame, args []value, op string) (*interpreter, *value, value) {
+			it := fr.i
+			p := ptrArg(fr, args[0], "atomic."+ty.name+"."+op)
+			it.schedPoint(fr, "atomic."+op)
+			if it.hb != nil {
+				it.hb.atomicOp(fr.g, p)
+			}
+			if c := it.atomics[p]; c != nil {
+				return it, p, *c
+			}
+			return it, p, ty.zero
+		}
+		num := func(v value) int64 {
+			if _, sym := v.(*Sym); sym {
+				abortf("atomic.%s with a symbolic value", ty.name)
+			}
+			if u, ok := v.(uint64); ok {
+				return int64(u)
+			}
+			if u, ok := v.(uint32); ok {
+				return int64(u)
+			}
+			return asInt64(v)
+		}
+		pre := "(*sync/atomic." + ty.name + ")."
+		reg(map[string]externalFn{
+			pre + "Load": func(fr *frame, args []value) value {
+				_, _, v := cur(fr, args, "Load")
+				return v
+			},
+			pre + "Store": func(fr *frame, args []value) value {
+				it, p, _ := cur(fr, args, "Store")
+				v := args[1]
+				it.atomics[p] = &v
+				return nil
+			},
+			pre + "Swap": func(fr *frame, args []value) value {
+				it, p, old := cur(fr, args, "Swap")
+				v := args[1]
+				it.atomics[p] = &v
+				return old
+			},
+			pre + "Add": func(fr *frame, args []value) value {
+				it, p, old := cur(fr, args, "Add")
+				v := ty.wrap(num(old) + num(args[1]))
+				it.atomics[p] = &v
+				return v
+			},
+			pre + "CompareAndSwap": func(fr *frame, args []value) value {
+				it, p, old := cur(fr, args, "CAS")
+				if num(old) == num(args[1]) {
+					v := args[2]
+					it.atomics[p] = &v
+					return true
+				}
+				return false
+			},
+		})
+	}
+
 	// ---- sync.Map (Load / Store / LoadOrStore / LoadAndDelete / Delete; keys must be concrete)
 	smOp := func(fr *frame, args []value, what string) (*interpreter, *syncMapState) {
 		it := fr.i
@@ -786,6 +885,20 @@ func init() {
 		return it, m
 	}
 	reg(map[string]externalFn{
+		"(*sync.Map).Range": func(fr *frame, args []value) value {
+			it, m := smOp(fr, args, "Range")
+			keys := make([]value, len(m.keys))
+			vals := make([]value, len(m.vals))
+			for i := range m.keys {
+				keys[i], vals[i] = m.keys[i], m.vals[i]
+			}
+			for i := range keys {
+				if r, _ := call(it, fr, token.NoPos, args[1], []value{keys[i], vals[i]}).(bool); !r {
+					break
+				}
+			}
+			return nil
+		},
 		"(*sync.Map).Load": func(fr *frame, args []value) value {
 			_, m := smOp(fr, args, "Load")
 			if i := m.find(args[1].(iface)); i >= 0 {
@@ -1118,4 +1231,43 @@ func (it *interpreter) errUnwrap(e iface) iface {
 		return ri
 	}
 	return iface{}
+}
+
+
+// sortByCmp: slices.SortFunc / SortStableFunc - a stable insertion sort calling the target's comparison
+// (a comparison on symbolic data forks like any other branch of the target).
+func sortByCmp(fr *frame, args []value) value {
+	x, _ := args[0].([]value)
+	for i := 1; i < len(x); i++ {
+		for j := i; j > 0; j-- {
+			r := call(fr.i, fr, token.NoPos, args[1], []value{x[j-1], x[j]})
+			if asInt64(r) <= 0 {
+				break
+			}
+			x[j-1], x[j] = x[j], x[j-1]
+		}
+	}
+	return nil
+}
+
+// sortByLess: sort.Slice / SliceStable - the less function indexes the slice itself, so elements are
+// swapped in place between calls (stable insertion sort).
+func sortByLess(fr *frame, args []value) value {
+	var x []value
+	switch v := args[0].(type) {
+	case iface:
+		x, _ = v.v.([]value)
+	case []value:
+		x = v
+	}
+	for i := 1; i < len(x); i++ {
+		for j := i; j > 0; j-- {
+			r, _ := call(fr.i, fr, token.NoPos, args[1], []value{j, j - 1}).(bool)
+			if !r {
+				break
+			}
+			x[j-1], x[j] = x[j], x[j-1]
+		}
+	}
+	return nil
 }
